@@ -1,7 +1,7 @@
 (* Proofs about Values/Deps.v: the flag computed by tags-then-conditions is the specification
    "first boolean condition decides, otherwise the tags verdict". *)
 From Coq Require Import List String Ascii Bool ZArith.
-From Helm Require Import Values.Tree Values.Schema Values.Scope Values.Deps.
+From Helm Require Import Values.Tree Values.Schema Values.Scope Values.Deps Values.ScopeProofs.
 Import ListNotations.
 Local Open Scope string_scope.
 
@@ -145,9 +145,9 @@ Proof.
 Qed.
 
 (* one level of processDependencyEnabled, in specification form *)
-Lemma pde_level_spec : forall compat c kids v path c' reqs0,
-  cmdeps c = Some reqs0 ->
-  pde_level compat c kids v path = Ok c' ->
+Lemma pde_body_spec : forall compat c kids v path c',
+  pde_body compat c kids v path = Ok c' ->
+  let reqs0 := mdeps_list c in
   let ks := resolved_kids compat kids reqs0 in
   let reqs := resolved_reqs reqs0 in
   exists cvals,
@@ -157,8 +157,8 @@ Lemma pde_level_spec : forall compat c kids v path c' reqs0,
     /\ process_kept (filter (fun ek => keep_name cvals path reqs (cname (fst ek))) ks) cvals path = Ok (cdeps c')
     /\ cname c' = cname c /\ cvalues c' = cvalues c /\ cschema c' = cschema c /\ ctemplates c' = ctemplates c.
 Proof.
-  intros compat c kids v path c' reqs0 Hmd H ks reqs. unfold pde_level in H. rewrite Hmd in H.
-  fold ks reqs in H.
+  intros compat c kids v path c' H reqs0 ks reqs. unfold pde_body in H.
+  fold reqs0 in H. fold ks reqs in H.
   destruct (CoalesceValues (set_deps c (map fst ks)) v) as [cvals|] eqn:Ec; [|discriminate].
   exists cvals. split; [reflexivity|].
   rewrite (flag_reqs_closed reqs cvals path (resolved_reqs_enabled reqs0)) in H.
@@ -169,6 +169,30 @@ Proof.
   destruct (process_kept _ cvals path) as [cd'|] eqn:Ek; [|discriminate].
   injection H as <-. destruct c as [n ver vals sch deps md tpls crds]; simpl. repeat split; try reflexivity.
   destruct (filter _ (flagged_spec cvals path reqs)); reflexivity.
+Qed.
+
+Lemma coalesce_leaf_ok : forall merge c v, cdeps c = [] -> exists cv, coalesce merge c v = Ok cv.
+Proof. intros merge c v H. rewrite coalesce_unfold, H. simpl. eauto. Qed.
+
+Lemma pde_level_spec : forall compat c kids v path c',
+  map fst kids = cdeps c ->
+  pde_level compat c kids v path = Ok c' ->
+  let reqs0 := mdeps_list c in
+  let ks := resolved_kids compat kids reqs0 in
+  let reqs := resolved_reqs reqs0 in
+  exists cvals,
+    CoalesceValues (set_deps c (map fst ks)) v = Ok cvals
+    /\ cmdeps c' = (match filter (fun r => keep_name cvals path reqs (dname r)) (flagged_spec cvals path reqs) with
+                    | [] => None | l => Some l end)
+    /\ process_kept (filter (fun ek => keep_name cvals path reqs (cname (fst ek))) ks) cvals path = Ok (cdeps c')
+    /\ cname c' = cname c /\ cvalues c' = cvalues c /\ cschema c' = cschema c /\ ctemplates c' = ctemplates c.
+Proof.
+  intros compat c kids v path c' Hk H. unfold pde_level in H.
+  destruct (cmdeps c) as [l|] eqn:Em; [now apply pde_body_spec|].
+  destruct kids as [|k0 kt]; [|now apply pde_body_spec].
+  injection H as <-. simpl in Hk. unfold mdeps_list. rewrite Em. simpl.
+  destruct (coalesce_leaf_ok false (set_deps c []) v) as (cv & Hc); [reflexivity|].
+  exists cv. split; [exact Hc|]. repeat split; try reflexivity; try exact Em. now rewrite <- Hk.
 Qed.
 
 (* ---------- unique names: a name survives iff its requirement is enabled ---------- *)
@@ -221,8 +245,6 @@ Proof.
   destruct a; reflexivity.
 Qed.
 
-Definition mdeps_list (c : chart) : list dependency := match cmdeps c with Some l => l | None => [] end.
-
 Lemma get_alias_name : forall compat kids r t k,
   get_alias compat kids r = Some (t, k) -> cname t = dname (apply_alias r).
 Proof.
@@ -241,31 +263,34 @@ Proof.
   intros. unfold listed. apply in_flat_map. exists r. split; [assumption|]. rewrite H0. now left.
 Qed.
 
+Lemma kids_of_fst : forall compat c, map fst (kids_of compat c) = cdeps c.
+Proof. intros. unfold kids_of. rewrite map_map. simpl. apply map_id. Qed.
+
 (* the records kept at this level *)
-Lemma pde_level_records : forall compat c kids v path c' reqs0 cvals,
-  cmdeps c = Some reqs0 -> pde_level compat c kids v path = Ok c' ->
-  CoalesceValues (set_deps c (map fst (resolved_kids compat kids reqs0))) v = Ok cvals ->
-  map dname (mdeps_list c') = filter (keep_name cvals path (resolved_reqs reqs0)) (map dname (resolved_reqs reqs0)).
+Lemma pde_level_records : forall compat c kids v path c' cvals,
+  map fst kids = cdeps c -> pde_level compat c kids v path = Ok c' ->
+  CoalesceValues (set_deps c (map fst (resolved_kids compat kids (mdeps_list c)))) v = Ok cvals ->
+  map dname (mdeps_list c') = filter (keep_name cvals path (resolved_reqs (mdeps_list c))) (map dname (resolved_reqs (mdeps_list c))).
 Proof.
-  intros compat c kids v path c' reqs0 cvals Hmd H Hc.
-  destruct (pde_level_spec compat c kids v path c' reqs0 Hmd H) as (cv & Hc' & Hm & _).
-  rewrite Hc in Hc'. injection Hc' as <-. unfold mdeps_list. rewrite Hm.
+  intros compat c kids v path c' cvals Hk H Hc.
+  destruct (pde_level_spec compat c kids v path c' Hk H) as (cv & Hc' & Hm & _).
+  rewrite Hc in Hc'. injection Hc' as <-. unfold mdeps_list at 1. rewrite Hm.
   rewrite <- (flagged_names cvals path).
-  destruct (filter _ (flagged_spec cvals path (resolved_reqs reqs0))); reflexivity.
+  destruct (filter _ (flagged_spec cvals path (resolved_reqs (mdeps_list c)))); reflexivity.
 Qed.
 
-Lemma pde_level_charts : forall compat c kids v path c' reqs0 cvals,
-  cmdeps c = Some reqs0 -> pde_level compat c kids v path = Ok c' ->
-  CoalesceValues (set_deps c (map fst (resolved_kids compat kids reqs0))) v = Ok cvals ->
-  map cname (cdeps c') = filter (keep_name cvals path (resolved_reqs reqs0))
-                                (map (fun ek => cname (fst ek)) (resolved_kids compat kids reqs0)).
+Lemma pde_level_charts : forall compat c kids v path c' cvals,
+  map fst kids = cdeps c -> pde_level compat c kids v path = Ok c' ->
+  CoalesceValues (set_deps c (map fst (resolved_kids compat kids (mdeps_list c)))) v = Ok cvals ->
+  map cname (cdeps c') = filter (keep_name cvals path (resolved_reqs (mdeps_list c)))
+                                (map (fun ek => cname (fst ek)) (resolved_kids compat kids (mdeps_list c))).
 Proof.
-  intros compat c kids v path c' reqs0 cvals Hmd H Hc.
-  destruct (pde_level_spec compat c kids v path c' reqs0 Hmd H) as (cv & Hc' & _ & Hk & _).
+  intros compat c kids v path c' cvals Hk H Hc.
+  destruct (pde_level_spec compat c kids v path c' Hk H) as (cv & Hc' & _ & Hp & _).
   rewrite Hc in Hc'. injection Hc' as <-.
-  rewrite (process_kept_names _ _ _ _ Hk).
-  clear. induction (resolved_kids compat kids reqs0) as [|a t IH]; simpl; [reflexivity|].
-  destruct (keep_name cvals path (resolved_reqs reqs0) (cname (fst a))); simpl; rewrite IH; reflexivity.
+  rewrite (process_kept_names _ _ _ _ Hp).
+  clear. induction (resolved_kids compat kids (mdeps_list c)) as [|a t IH]; simpl; [reflexivity|].
+  destruct (keep_name cvals path (resolved_reqs (mdeps_list c)) (cname (fst a))); simpl; rewrite IH; reflexivity.
 Qed.
 
 Lemma process_kept_each : forall cd cvals path cd',
@@ -283,17 +308,17 @@ Qed.
 
 (* ---------- the property-level statements (used by Props/C11.v) ---------- *)
 
-Lemma pde_coalesce_ok : forall compat c v path c' reqs0,
-  cmdeps c = Some reqs0 -> pde compat c v path = Ok c' ->
-  exists cvals, CoalesceValues (set_deps c (map fst (resolved_kids compat (kids_of compat c) reqs0))) v = Ok cvals.
+Lemma pde_coalesce_ok : forall compat c v path c',
+  pde compat c v path = Ok c' ->
+  exists cvals, CoalesceValues (set_deps c (map fst (resolved_kids compat (kids_of compat c) (mdeps_list c)))) v = Ok cvals.
 Proof.
-  intros compat c v path c' reqs0 Hmd H. rewrite pde_unfold in H.
-  destruct (pde_level_spec compat c _ v path c' reqs0 Hmd H) as (cv & Hc & _). now exists cv.
+  intros compat c v path c' H. rewrite pde_unfold in H.
+  destruct (pde_level_spec compat c _ v path c' (kids_of_fst compat c) H) as (cv & Hc & _). now exists cv.
 Qed.
 
-Lemma enabled_iff : forall compat c v path c' reqs0,
-  cmdeps c = Some reqs0 ->
+Lemma enabled_iff : forall compat c v path c',
   pde compat c v path = Ok c' ->
+  let reqs0 := mdeps_list c in
   let ks := resolved_kids compat (kids_of compat c) reqs0 in
   let reqs := resolved_reqs reqs0 in
   exists cvals,
@@ -304,13 +329,13 @@ Lemma enabled_iff : forall compat c v path c' reqs0,
           /\ (In (dname r) (map cname (cdeps c')) <->
               In (dname r) (map (fun ek => cname (fst ek)) ks) /\ enabled_spec cvals path r = true)).
 Proof.
-  intros compat c v path c' reqs0 Hmd H ks reqs.
-  destruct (pde_coalesce_ok compat c v path c' reqs0 Hmd H) as (cvals & Hc).
+  intros compat c v path c' H reqs0 ks reqs.
+  destruct (pde_coalesce_ok compat c v path c' H) as (cvals & Hc).
   exists cvals. split; [exact Hc|]. intros Hnd r Hin.
   rewrite pde_unfold in H.
-  rewrite (pde_level_records compat c _ v path c' reqs0 cvals Hmd H Hc).
-  rewrite (pde_level_charts compat c _ v path c' reqs0 cvals Hmd H Hc).
-  fold reqs ks. rewrite !filter_In. rewrite (keep_name_nodup cvals path reqs r Hnd Hin).
+  rewrite (pde_level_records compat c _ v path c' cvals (kids_of_fst compat c) H Hc).
+  rewrite (pde_level_charts compat c _ v path c' cvals (kids_of_fst compat c) H Hc).
+  fold reqs0. fold reqs ks. rewrite !filter_In. rewrite (keep_name_nodup cvals path reqs r Hnd Hin).
   split; split.
   - intros [_ E]; exact E.
   - intros E; split; [now apply in_map|exact E].
@@ -318,9 +343,9 @@ Proof.
   - intros [Hi E]; split; assumption.
 Qed.
 
-Lemma disabled_vanish : forall compat c v path c' reqs0,
-  cmdeps c = Some reqs0 ->
+Lemma disabled_vanish : forall compat c v path c',
   pde compat c v path = Ok c' ->
+  let reqs0 := mdeps_list c in
   let ks := resolved_kids compat (kids_of compat c) reqs0 in
   let reqs := resolved_reqs reqs0 in
   exists cvals,
@@ -329,13 +354,13 @@ Lemma disabled_vanish : forall compat c v path c' reqs0,
           ~ In (dname r) (map cname (cdeps c')) /\ ~ In (dname r) (map dname (mdeps_list c')))
     /\ (forall n, In n (map cname (cdeps c')) -> In n (map (fun ek => cname (fst ek)) ks)).
 Proof.
-  intros compat c v path c' reqs0 Hmd H ks reqs.
-  destruct (pde_coalesce_ok compat c v path c' reqs0 Hmd H) as (cvals & Hc).
+  intros compat c v path c' H reqs0 ks reqs.
+  destruct (pde_coalesce_ok compat c v path c' H) as (cvals & Hc).
   exists cvals. split; [exact Hc|].
   rewrite pde_unfold in H.
-  rewrite (pde_level_records compat c _ v path c' reqs0 cvals Hmd H Hc).
-  rewrite (pde_level_charts compat c _ v path c' reqs0 cvals Hmd H Hc).
-  fold reqs ks. split.
+  rewrite (pde_level_records compat c _ v path c' cvals (kids_of_fst compat c) H Hc).
+  rewrite (pde_level_charts compat c _ v path c' cvals (kids_of_fst compat c) H Hc).
+  fold reqs0. fold reqs ks. split.
   - intros r Hin Hs. pose proof (keep_name_false cvals path reqs r Hin Hs) as Hk.
     split; intros Hx; apply filter_In in Hx as [_ Hx]; rewrite Hk in Hx; discriminate.
   - intros n Hx. apply filter_In in Hx as [Hx _]. exact Hx.
@@ -367,9 +392,9 @@ Proof.
     + destruct (IH E) as (d' & Hd & Hs & Hf). exists d'. split; [now right|]. auto.
 Qed.
 
-Lemma enabled_recursive : forall compat c v path c' reqs0,
-  cmdeps c = Some reqs0 ->
+Lemma enabled_recursive : forall compat c v path c',
   pde compat c v path = Ok c' ->
+  let reqs0 := mdeps_list c in
   let ks := resolved_kids compat (kids_of compat c) reqs0 in
   let reqs := resolved_reqs reqs0 in
   exists cvals,
@@ -378,14 +403,25 @@ Lemma enabled_recursive : forall compat c v path c' reqs0,
                                         /\ t' = set_name t'' (cname (fst ek)))
                (filter (fun ek => keep_name cvals path reqs (cname (fst ek))) ks) (cdeps c').
 Proof.
-  intros compat c v path c' reqs0 Hmd H ks reqs. rewrite pde_unfold in H.
-  destruct (pde_level_spec compat c _ v path c' reqs0 Hmd H) as (cv & Hc & _ & Hk & _).
+  intros compat c v path c' H reqs0 ks reqs. rewrite pde_unfold in H.
+  destruct (pde_level_spec compat c _ v path c' (kids_of_fst compat c) H) as (cv & Hc & _ & Hk & _).
   exists cv. split; [exact Hc|]. apply process_kept_each. exact Hk.
 Qed.
 
-Lemma no_requirements_untouched : forall compat c v path,
-  cmdeps c = None -> pde compat c v path = Ok c.
-Proof. intros. rewrite pde_unfold. unfold pde_level. rewrite H. reflexivity. Qed.
+(* a chart without requirements keeps all its subcharts (and they are processed in turn) *)
+Lemma no_requirements_keeps_all : forall compat c v path c',
+  cmdeps c = None -> pde compat c v path = Ok c' ->
+  map cname (cdeps c') = map cname (cdeps c) /\ cmdeps c' = None.
+Proof.
+  intros compat c v path c' Hm H.
+  destruct (pde_coalesce_ok compat c v path c' H) as (cvals & Hc).
+  rewrite pde_unfold in H.
+  pose proof (pde_level_charts compat c _ v path c' cvals (kids_of_fst compat c) H Hc) as Hch.
+  destruct (pde_level_spec compat c _ v path c' (kids_of_fst compat c) H) as (cv & _ & Hmd & _).
+  unfold mdeps_list in *. rewrite Hm in *. simpl in *. split; [|exact Hmd].
+  rewrite Hch. unfold resolved_kids, unlisted, listed. simpl. rewrite app_nil_r.
+  unfold kids_of. induction (cdeps c) as [|d t IH]; simpl; [reflexivity|]. now rewrite IH.
+Qed.
 
 (* rendered templates come from the chart itself or from a chart that was kept *)
 Lemma templates_from_kept : forall c root pp pv p x,
